@@ -447,6 +447,64 @@ pub fn run(tier: &str) -> i32 {
         }
     }
 
+    // (B4b) prior work that ends early: a program that *fails part-way* through a consumer (after
+    //       some elements were pulled), or completes, then a probe through every consumer on the
+    //       same thread - every (work source x work consumer) x (probe source x probe consumer)
+    //       against the probe alone on a fresh thread (scratch state kept from one evaluation to
+    //       the next would show as elements or effects of the earlier program)
+    {
+        const CONSUMERS: &[(&str, &str)] = &[
+            ("$]", "IT $]"),
+            ("$+", "IT $+"),
+            ("$*", "IT $*"),
+            ("$&", "IT $&"),
+            ("$|", "IT $|"),
+            ("for", "acc := mut [int] []; for e in IT { acc += [e] }; *acc"),
+            ("$ init f", "IT $ 0 (a: int, e: int) -> int { return a * 10 + e }"),
+            ("partition", "IT \\ (e: int) -> bool { return e > 7 }"),
+            ("map then $]", "IT @ (e: int) -> int { return e + 1 } $]"),
+            ("filter then $]", "IT ? (e: int) -> bool { return e > 0 } $]"),
+            ("type filter then $]", "IT ? int $]"),
+            ("nested collect", "[IT $], IT $]]"),
+            ("string of the collected", "std.convert.to_string(IT $])"),
+            ("slice of the collected", "(IT $])[::-1]"),
+        ];
+        const WORK_SOURCES: &[&str] = &[
+            "([1, 2, 0, 4]~ @ (v: int) -> int { return 10 / v })",
+            "({ i := mut 3; () -> (bool, int) { i -= 1; return (true, 10 / *i) } })",
+            "([5, 6, 99]~ @ (v: int) -> int { return [1, 2, 3, 4, 5, 6, 7][v] })",
+            "([1, 2, 3]~)",
+        ];
+        const PROBE_SOURCES: &[&str] = &["([7, 8, 9]~)", "([7, 8, 9]~ @ (v: int) -> int { return v * 2 })", "([]~ ? int)"];
+        let works: Vec<String> = WORK_SOURCES.iter().flat_map(|src| CONSUMERS.iter().map(move |(_, c)| c.replace("IT", src))).collect();
+        let probes: Vec<(String, String)> = PROBE_SOURCES
+            .iter()
+            .flat_map(|src| CONSUMERS.iter().map(move |(cn, c)| (format!("{cn} over {src}"), c.replace("IT", src))))
+            .collect();
+        let alone: Vec<String> = probes.iter().map(|(_, p)| { let p = p.clone(); core::on_big_stack(move || program_outcome(&p)) }).collect();
+        let (nw, np) = (works.len(), probes.len());
+        let accs = par_fold(nw * np, Acc::default, |acc, idx| {
+            let (wi, pi) = (idx / np, idx % np);
+            let got = core::on_big_stack({
+                let (w, p) = (works[wi].clone(), probes[pi].1.clone());
+                move || {
+                    let _ = program_outcome(&w);
+                    program_outcome(&p)
+                }
+            });
+            acc.runs += 1;
+            if got != alone[pi] {
+                acc.violations.push(Violation {
+                    sig: format!("C05|outcome-depends-on-prior-work|probe={}|after-work#{wi}", probes[pi].0.replace('|', "/")),
+                    detail: json!({"kind": "program", "stdlib": true, "text": probes[pi].1, "run_before_on_the_same_thread": works[wi], "alone_on_a_fresh_thread": alone[pi], "observed": got}),
+                });
+            }
+        });
+        for a in accs {
+            merge(&mut acc, a);
+        }
+    }
+
     // (B2) an imported file is checked and folded in the scope of the program that imports it, and is
     //      an input: the same path imported by different programs, and by the same program after the
     //      file changed, gives each time what a first import gives (no memory of earlier parses)
